@@ -13,7 +13,7 @@ from __future__ import annotations
 
 import ast
 
-from ..cfg import CFG, count_on_paths, find_path
+from ..cfg import CFG, count_on_paths, describe_path, find_path
 from ..core import Ctx, Rule
 from ..facts import ShapeError, call_name, calls_in, dotted, kwarg, norm, walk_no_nested
 from ..tables import Inst, Opaque, decide
@@ -100,13 +100,50 @@ def t1_final_rounding(ctx: Ctx):
         ctx.check(good, REALS, f, f'RealFloat.{m}', 'num_randbits == 0 -> deterministic; otherwise stochastic with the same (p, n, emin, rm, rng, exact)', 'dispatch changed')
 
 
+def p3_round_reached(ctx: Ctx):
+    """One draw per rounding of a finite non-zero operand: in each context's `_round_at`, no path returns a value for such
+    an operand without going through the rounding call (the only place a draw is taken).  A shortcut for operands that
+    are already representable rounds correctly and still breaks the property: the draws of every later rounding that
+    shares the generator shift by one."""
+    n = 0
+    for rel, cname, c in c01.context_classes(ctx.repo):
+        fn = c01.own_method(c, '_round_at')
+        if fn is None:
+            continue
+        q = f'{cname}._round_at'
+        cfg = CFG(fn)
+
+        def rounds(node) -> bool:
+            return node.ast is not None and node.kind in ('stmt', 'return', 'test') and any(
+                isinstance(x, ast.Call) and isinstance(x.func, ast.Attribute) and x.func.attr in ('round', '_round_at', 'round_at') for x in ast.walk(node.ast))
+
+        def special(node) -> bool:
+            a = node.ast
+            return (isinstance(a, ast.Attribute) and a.attr in ('isnan', 'isinf')) or \
+                (isinstance(a, ast.Call) and isinstance(a.func, ast.Attribute) and a.func.attr in ('is_zero', 'is_nar'))
+        R = [x for x in cfg.nodes if rounds(x)]
+        if not R:
+            continue
+        sp = [x for x in cfg.nodes_of('test') if special(x)]
+        for ret in cfg.nodes_of('return'):
+            if ret in R:
+                continue
+            n += 1
+            p = find_path(cfg, cfg.entry, ret, avoid=lambda x: x in R, edge_ok=lambda x, lab: not (x in sp and lab is True))
+            ctx.check(p is None, rel, ret.ast, q, f'`{norm(ret.ast)[:70]}` is reached only through the rounding call or a NaN / infinity / zero arm',
+                      'a finite non-zero operand is returned without reaching RealFloat.round: no draw is consumed for it', path=describe_path(p, rel) if p else None)
+    if n < 15:
+        raise ShapeError(f'only {n} returns of context _round_at methods examined')
+
+
 EXPLANATION = (
     'Narrow structural claim over RealFloat stochastic rounding and the contexts (ast only). Decided: (P1) on every path through '
     '_round_at_stochastic exactly one draw of num_randbits bits is taken from the given generator, unconditionally; generator '
     'dispatch table; (T1) the result is self._round_at at the original (p, n, emin) under RAZ iff round_up else RTZ, RTZ when no '
     'digits are lost, intermediate rounding to k extra digits under the context mode, dispatch on num_randbits == 0 in round and '
     'round_at; (F1 = C01.F1) every context forwards rm, num_randbits, rng and exact at its rounding call; (P2 = C01.P2) NaN, '
-    'infinity and zero are taken out before RealFloat.round so they consume no draw; (S1 = C03.F3) round_params widens the '
+    'infinity and zero are taken out before RealFloat.round so they consume no draw; (P3) no path of a context\'s _round_at returns for a finite '
+    'non-zero operand without passing the rounding call, so an already representable operand consumes its draw too; (S1 = C03.F3) round_params widens the '
     'engine precision by the random bits. NOT decided: the number of draws that round away (the comparison randbits + lost_c >= '
     '2**k, the shift aligning lost_c) - i.e. the probability itself.'
 )
@@ -117,6 +154,7 @@ RULES = [
     Rule('C17.T1', 'result = ordinary rounding at the original position, away iff round_up else toward zero', t1_final_rounding, 8, 'T'),
     Rule('C17.F1', 'every context forwards rm, num_randbits, rng, exact to RealFloat.round', c01.f1_plumbing, 32, 'F'),
     Rule('C17.P2', 'zeros and special values never reach the drawing code', c01.p2_specials_first, 15, 'P'),
+    Rule('C17.P3', 'no context returns a finite non-zero operand without going through the rounding call (one draw per rounding, representable operands included)', p3_round_reached, 15, 'P'),
     Rule('C17.S1', 'round_params widens the engine precision by the random bits', f3_round_params, 10, 'S'),
 ]
 
@@ -125,6 +163,10 @@ from ..selftest import Mutant  # noqa: E402
 CTX = 'fpy2/number/context/'
 
 MUTANTS = [
+    Mutant('representable-operand-skips-the-draw', CTX + 'mp_fixed.py', "        # step 3. round value based on rounding parameters\n        xr = xr.round(min_n=n,",
+           "        if xr.exp > n:\n            return Float(s=xr.s, exp=xr.exp, c=xr.c, ctx=self)\n        xr = xr.round(min_n=n,", 'C17.P3',
+           'seeded change C17c: four draws instead of seven for seven roundings, later results shift'),
+    Mutant('float-operand-of-the-format-skips-the-draw', CTX + 'mp_float.py', "        # step 3. round value based on rounding parameters", "        if isinstance(x, Float) and x.p <= self.pmax:\n            return Float(x=x, ctx=self)\n        # step 3. round value based on rounding parameters", 'C17.P3'),
     Mutant('draw-only-when-inexact', REALS, "        randbits = self._generate_randbits(rng, num_randbits)\n\n        # step 3", "        randbits = 0\n\n        # step 3", 'C17.P1'),
     Mutant('draw-twice', REALS, "            round_up = randbits + lost_c >= (1 << num_randbits)", "            round_up = self._generate_randbits(rng, num_randbits) + lost_c >= (1 << num_randbits)", 'C17.P1'),
     Mutant('draw-from-global', REALS, "        randbits = self._generate_randbits(rng, num_randbits)", "        randbits = self._generate_randbits(None, num_randbits)", 'C17.P1'),
